@@ -250,13 +250,11 @@ theorem rowAll_length (knots : List Rat) (d : ℕ) (ext : Bool) (x : ℚ) :
 
 theorem interiorKnots_length {a : Args} {lower upper : Rat} {xs : List (Option Rat)}
     {quant : List Rat → ℕ → List Rat} {l : List Rat} {df : ℕ}
-    (hq : ∀ s m, (quant s m).length = m) (hdf : a.df = some (df : Int)) (hpos : df ≠ 0)
+    (hq : ∀ s m, (quant s m).length = m) (hdf : a.df = some (df : Int))
     (h : interiorKnots a lower upper xs quant = .ok l) :
     l.length + a.degree + (if a.intercept then 1 else 0) = df := by
   unfold interiorKnots at h
   simp only [hdf] at h
-  have h0 : ¬ ((df : Int) = 0) := by simp; exact hpos
-  simp only [h0, if_false] at h
   by_cases hn : (df : Int) - (a.degree : Int) - (if a.intercept then 1 else 0) < 0
   · simp only [hn, if_true] at h; cases h
   · simp only [hn, if_false] at h
